@@ -187,6 +187,9 @@ func (s *Sim) Fault(name string) {
 }
 
 func (s *Sim) Violate(prop, rule, culprit, detail string) {
+	if s.draining.Load() {
+		return // the verdict is final once teardown starts; teardown makes operations fail artificially
+	}
 	s.mu.Lock()
 	defer s.mu.Unlock()
 	if len(s.viols) >= 64 {
